@@ -42,14 +42,11 @@ Proof.
     destruct (lim_check (lim_increase (p_hs p)) now) as [h ex]. destruct ex; inversion H.
   - (* MResponse *)
     cbn [p_hs set_hs] in H.
-    destruct (lim_check (lim_increase (p_hs p)) now) as [h ex]. cbn [snd].
+    destruct (lim_check (lim_increase (p_hs p)) now) as [h ex].
     destruct ex; [inversion H|].
-    cbn [p_challenge p_key set_hs] in H.
-    destruct ver_ok; cbn [andb negb] in H; [|inversion H].
-    destruct (p_challenge p); cbn [andb negb] in H; [|inversion H].
-    destruct sig_ok; cbn [andb negb] in H; [|inversion H].
-    destruct (p_key p) as [k|]; [|inversion H].
-    destruct (k =? key); [inversion H|]. reflexivity.
+    destruct (negb (ver_ok && p_challenge (set_hs h (set_hs (lim_increase (p_hs p)) p)) && sig_ok)); [inversion H|].
+    destruct (p_key (set_hs h (set_hs (lim_increase (p_hs p)) p))) as [k|]; [|inversion H].
+    destruct (k =? key); inversion H.
   - (* MTx *)
     destruct (verified && (ty =? GT_TYPE) && negb (len =? GT_LEN)); [reflexivity|inversion H].
   - (* MGhostReq *)
@@ -100,16 +97,6 @@ Proof.
   intros st now idx p m H.
   destruct m as [| sig_ok ver_ok key | | ty len verified | | | | | n | | a | | | | n];
     cbn [dispatch known_msg] in *; try discriminate.
-  - cbn [p_hs set_hs].
-    destruct (lim_check (lim_increase (p_hs p)) now) as [h ex]. cbn [snd] in H.
-    destruct ex; cbn [negb andb] in H; [discriminate|].
-    cbn [p_challenge p_key set_hs].
-    destruct ver_ok; cbn [andb] in H; [|discriminate].
-    destruct (p_challenge p); cbn [andb] in H; [|discriminate].
-    destruct sig_ok; cbn [andb] in H; [|discriminate].
-    cbn [andb negb].
-    destruct (p_key p) as [k|]; [|discriminate].
-    destruct (k =? key); cbn [negb] in H; [discriminate|]. eexists. reflexivity.
   - eexists. reflexivity.
   - rewrite H. eexists. reflexivity.
   - destruct (p_key p); [rewrite H|]; eexists; reflexivity.
